@@ -13,7 +13,7 @@ from engine.smt import INF, ER
 from engine.runner import jnum, unj, active_regions
 
 ID = 'C01'
-BUDGET = {'quick': 420, 'thorough': 3000}
+BUDGET = {'quick': 420, 'thorough': 1800}
 SOURCES = ['src/dtaidistance/dtw.py', 'src/dtaidistance/innerdistance.py', 'src/dtaidistance/ed.py']
 FUNCTIONS = ['dtw.distance', 'dtw.DTWSettings.__init__/for_dtw/set_max_dist/split_psi', 'innerdistance.inner_dist_fns',
              'innerdistance.SquaredEuclidean/Euclidean (inner_dist, result, inner_val)', 'custom inner-distance object']
